@@ -32,8 +32,9 @@ void exh_line(vh::Case& c, int n) {
   long cnt = W.for_each_in_block(blk, [&](const std::vector<int>& lv, int k) {
     std::vector<double> vals(n);
     for (int i = 0; i < n; ++i) vals[i] = tr(lv[i]);
-    std::string txt = show_vals(vals);
-    X.current_input("vals=" + txt);
+    std::string lvs(n, '0'); for (int i = 0; i < n; ++i) lvs[i] = (char)('0' + lv[i]);
+    X.current_input("ranks=" + lvs);
+    Input_txt txt{0, n, &vals};
     bool ok = true;
     // std::less on a vector<double>
     ok &= check_line(X, vals, std::less<>(), [](double x) { return x; }, [](double x) { return x == kInf; }, "less", txt);
@@ -51,7 +52,7 @@ void exh_line(vh::Case& c, int n) {
     if (k < n) c.count("weak_orders.with_ties");
     Expected E = expected_of(0, n, vals);
     if (!E.offdiag.empty()) { ++with_interval; c.count("weak_orders.with_finite_interval");
-      if (sampled < 32) { ++sampled; c.nontrivial(vh::hash_str(txt, vh::hash_str("line"))); } }
+      if (sampled < 32) { ++sampled; c.nontrivial(vh::hash_str(lvs, vh::hash_str("line"))); } }
     (void)ok;
   });
   c.count("blocks.line");
@@ -69,8 +70,9 @@ long rect_block(Ctx& X, const Weak_orders& W, long blk, int r, int cN, const Tra
   return W.for_each_in_block(blk, [&](const std::vector<int>& lv, int k) {
     std::vector<double> vals(n);
     for (int i = 0; i < n; ++i) vals[i] = tr(lv[i]);
-    std::string txt = vh::str(r) + "x" + vh::str(cN) + " " + show_vals(vals);
-    X.current_input("cells(C order)=" + txt);
+    std::string lvs(n, '0'); for (int i = 0; i < n; ++i) lvs[i] = (char)('0' + lv[i]);
+    X.current_input("ranks(C order)=" + lvs);
+    Input_txt txt{r, cN, &vals};
     Expected E = expected_of(r, cN, vals);
     check_rectangle<double, Index>(X, r, cN, vals, E, txt);
     c.count("weak_orders.rect");
@@ -81,7 +83,7 @@ long rect_block(Ctx& X, const Weak_orders& W, long blk, int r, int cN, const Tra
     bool h1 = false; for (auto& i : E.offdiag) if (i.dim == 1) h1 = true;
     if (h1) { ++with_h1; c.count("weak_orders.with_dim1_interval"); }
     if (!E.offdiag.empty()) { ++with_interval; c.count("weak_orders.with_finite_interval");
-      if (sampled < 32) { ++sampled; c.nontrivial(vh::hash_str(txt, vh::hash_str("rect"))); } }
+      if (sampled < 32) { ++sampled; c.nontrivial(vh::hash_str(lvs, vh::hash_mix(vh::hash_str("rect"), r * 16 + cN))); } }
   });
 }
 
